@@ -117,6 +117,7 @@ type histRelease struct {
 	listedFrom int    // first run in which the mirror lists it
 	listedTo   int    // last run in which the mirror lists it (0 = for ever)
 	servedOK   bool   // debian: the Release file was served without a fault in some run so far
+	dropCause  string // debian: why the latest stored operation lacks the release: "release-file" (the finding) or "listing"
 	pair       pkgPair
 	ir         *claircore.IndexReport
 	expect     int // epoch of the feed the store holds for it (0 = no demand)
@@ -469,6 +470,15 @@ func (hy *history) run(ctx context.Context, run int) {
 			x.expect = hy.epoch[x.feed]
 		case x.listed(run) && x.servedOK:
 			x.expect = hy.epoch[x.feed]
+			x.dropCause = ""
+		case x.listed(run) && listingFault:
+			// an operation was stored in a run whose dists/ listing could not be
+			// fetched: the release table was not refreshed, and Parse succeeded
+			x.expect = 0
+			x.dropCause = "listing"
+		case x.listed(run):
+			x.expect = 0
+			x.dropCause = "release-file"
 		default:
 			// the single debian updater stored a new operation; the mirror does
 			// not list this release (any more), or its Release file has never
@@ -486,7 +496,7 @@ func (hy *history) run(ctx context.Context, run int) {
 			}
 			msg := fmt.Sprintf("history %d %s release=%s run=%d: history [%s]: the run had no transient fault, the mirror lists the release, and the store does not hold the release's current feed (epoch %d; the updater %s last stored epoch %d)",
 				hy.id, x.eco, x.rel, run, strings.Join(hy.log, " | "), hy.epoch[x.feed], x.updater, x.expect)
-			if x.eco == "debian" && hy.st.stored(x.updater) != run {
+			if x.eco == "debian" && hy.st.stored(x.updater) != run && x.dropCause == "release-file" {
 				// the tracker was not republished since the operation that left the release out
 				r.Fail("debian-release-fault-drops", msg+" (the tracker feed has not changed since the operation that left the release out)")
 				continue
@@ -525,6 +535,8 @@ func (hy *history) run(ctx context.Context, run int) {
 				r.Fail("", fmt.Sprintf("%s: the updater %s last stored the feed of run %d successfully, the mirror lists the release, and the vulnerable package %s@%s (fixed in %s) is reported %v, expected exactly [%s]",
 					where, x.updater, x.expect, x.pair.vulnBin, x.pair.vulnVer, x.pair.fixIn, gotV, want))
 			}
+		case x.eco == "debian" && x.listed(run) && !x.servedOK && hy.st.stored(x.updater) == run && len(gotV) == 0 && x.dropCause == "listing":
+			r.Fail("", fmt.Sprintf("%s: the dists/ listing of the mirror could not be fetched in this run, debian/updater ran all the same, its Parse succeeded and the operation stored (fingerprint: the tracker's Last-Modified) holds no advisory of the release %s, which the mirror lists: the vulnerable package %s@%s is reported %v", where, x.rel, x.pair.vulnBin, x.pair.vulnVer, gotV))
 		case x.eco == "debian" && x.listed(run) && !x.servedOK && hy.st.stored(x.updater) == run && len(gotV) == 0:
 			r.Count("history:debian-never-enumerated")
 			r.Fail("debian-release-fault-drops", fmt.Sprintf("%s: dists/%s/Release has failed in every enumeration so far; debian/updater's Parse succeeded and stored no advisory of the release", where, x.rel))
@@ -737,6 +749,13 @@ func (h *harness) sectionHistory() {
 		if hi < 2 && len(debs) > 1 {
 			hy.forced[2] = []string{debs[hi%(len(debs)-1)].relKey}
 			hy.forced[3] = []string{debs[len(debs)-1].relKey}
+		}
+		if hi == 2 && len(debs) > 1 {
+			// the listing itself fails in the run in which the late release
+			// appears (the tracker is republished and answers); run 4 is quiet
+			hy.forcedSt[3] = []string{"deb.test/debian/dists/"}
+			hy.changed[3] = []string{"debian"}
+			hy.quiet[4] = true
 		}
 		cfgs := map[string]driver.ConfigUnmarshaler{}
 		sets := []string{"alpine", "debian", "ubuntu", "osv", "photon", "suse", "aws", "oracle"}
@@ -1013,6 +1032,27 @@ func (h *harness) knownDebianFault() {
 			}
 		}
 		return n, err
+	}
+	// the dists/ listing fails: no updater may run (or, if one does, it must not
+	// store an operation without the release)
+	{
+		code2 := "vrf" + freshTag() + "zy"
+		w2 := newWorld()
+		w2.debianWorld([]debRelease{{code2, 62}}, map[string][]adv{code2: {{pkg: "pa", fixed: "1", id: "CVE-zy-1"}}})
+		w2.faults["deb.test/debian/dists/"] = fault{status: 503}
+		r.Case("debian: the dists/ listing fails in the first enumeration", true)
+		vs, err := debianRun(ctx, w2)
+		if err == nil {
+			n := 0
+			for _, v := range vs {
+				if v.Dist != nil && v.Dist.VersionCodeName == code2 {
+					n++
+				}
+			}
+			if n != 1 {
+				r.Fail("", fmt.Sprintf("debian: GET dists/ answers 503 in the first enumeration of a mirror listing %s; UpdaterSet hands out the updater all the same, and its Fetch and Parse succeed with %d of the 1 advisories the tracker has for %s (an operation without the release would be stored under the tracker's Last-Modified)", code2, n, code2))
+			}
+		}
 	}
 	r.Case("debian: Release request fails in the first enumeration", true)
 	w.faults[relKey] = fault{status: 503}
